@@ -293,8 +293,8 @@ func (f *formatting) formatArrayLiteral(n *ArrayLiteral) {
 		}
 	}
 	f.indentLevel--
-	if multi[length-1].isNL() {
-		f.indent()
+	if multi[length-1].isNL() || multi[length-1].isComment() {
+		f.indent() // a comment item ends its line too
 	}
 	f.write("]")
 }
@@ -329,8 +329,8 @@ func (f *formatting) formatMapLiteral(n *MapLiteral) {
 		}
 	}
 	f.indentLevel--
-	if multi[length-1].isNL() {
-		f.indent()
+	if multi[length-1].isNL() || multi[length-1].isComment() {
+		f.indent() // a comment item ends its line too
 	}
 	f.write("}")
 }
